@@ -286,10 +286,51 @@ def tail_form(stmts, emit):
                          orelse=orelse)
             out.append(ast.copy_location(new, st))
             return out
+        if isinstance(st, (ast.For, ast.While)) and not st.orelse and \
+                _has_return(st.body):
+            # search loop: `return e` leaves the loop with the value, the
+            # statements after the loop run only when it was exhausted
+            new = copy.copy(st)
+            new.body = _loop_returns(st.body, emit)
+            new.orelse = tail_form(stmts[i + 1:], emit)
+            out.append(new)
+            return out
         if _has_return([st]):
             raise NotInlinable('return inside a loop/try/with')
         out.append(st)
     out.extend(emit(None))
+    return out
+
+
+def _loop_returns(stmts, emit):
+    """body of a search loop: `return e` -> emit(e); break.  Only plain
+    statements and ifs may enclose the returns, and the loop must not
+    break on its own (its else clause takes the code after the loop)."""
+    out = []
+    for st in stmts:
+        if isinstance(st, ast.Return):
+            em = emit(st.value)
+            out.extend(em)
+            if not (em and isinstance(em[-1], ast.Return)):
+                out.append(ast.Break())
+            return out
+        if isinstance(st, ast.Break):
+            raise NotInlinable('loop with its own break')
+        if isinstance(st, ast.If):
+            new = ast.If(test=st.test,
+                         body=_loop_returns(st.body, emit) or [ast.Pass()],
+                         orelse=_loop_returns(st.orelse, emit))
+            out.append(ast.copy_location(new, st))
+            continue
+        if _has_return([st]) or any(isinstance(n, ast.Break)
+                                    for n in ast.walk(st)
+                                    ) and not isinstance(
+                                        st, (ast.For, ast.While)):
+            raise NotInlinable('return inside a nested loop/try/with')
+        if isinstance(st, (ast.Try, ast.With)) and any(
+                isinstance(n, ast.Break) for n in ast.walk(st)):
+            raise NotInlinable('break inside try/with')
+        out.append(st)
     return out
 
 
